@@ -157,7 +157,7 @@ def r2_get_set_symmetry(R) -> None:
     for r in g.returns():
         v = r.ast.value
         if isinstance(v, ast.Subscript) and (g.holds(r.id, f"isinstance({g.fi.params()[1]}, tuple)") or True):
-            base = g.etext(r.id, v.value)
+            base = g.etext(r.id, v.value, stop=(tg['name'],))
             sub_forms.append((base, text(v.slice), r))
     want_slice = ':'.join(tg['slice_names']) if len(tg['slice_names']) == 3 else None
     series_ok = {f"self.__getattr__({tg['name']})", f"self.__dict__['_' + {tg['name']}]"}
